@@ -388,7 +388,7 @@ class StubStage(Native):
         eng.assume(eng.compare(ast.LtE(), rr, rem))
         if self.honour:
             eng.assume(z3.Or(eng.lift(max_length) < 0, eng.lift(rr) <= eng.lift(max_length)))
-        self.calls.append((data.length(), max_length, rr))
+        self.calls.append((data.length(), max_length, rr, getattr(self, "ctx", {}).get("limit")))
         out = Rope([("D_" + self.name, self.produced, rr)])
         self.produced = eng.binop(ast.Add(), self.produced, rr)
         return out
@@ -431,13 +431,17 @@ def decompressor_calls(k, honour, nstages=1):
         d.attrs.update(input_size=IN, consumed=0, block_size=BS, chain=stages, _unpacksizes=list(totals),
                        _unpacked=[0] * nstages, _unused=Rope(), _buf=Rope(), _pos=0, digest=0, crc=None)
         outs = []
+        ctx = {}
+        for st_ in stages:
+            st_.ctx = ctx
         try:
             for m in ms:
+                ctx["limit"] = m
                 outs.append(e.method(d, "decompress", fp, m))
         except ModelRaise as ex:
             return dict(exc=ex.name)
         held = e.binop(ast.Sub(), d.attrs["_buf"].length(), d.attrs["_pos"])
-        return dict(norm=ropes.rope_norm(e, cat(outs)), lens=[o.length() for o in outs], d=d, held=held, last=stages[-1], fp=fp,
+        return dict(norm=ropes.rope_norm(e, cat(outs)), lens=[o.length() for o in outs], d=d, held=held, last=stages[-1], fp=fp, stages=stages,
                     digest=_normcrc(e, d.attrs["digest"]))
 
     def post(o):
@@ -455,6 +459,11 @@ def decompressor_calls(k, honour, nstages=1):
         c.append(eq(eng, eng.binop(ast.Add(), total, o["held"]), last.produced))  # delivered + carried = produced
         for rq in o["fp"].reqs:
             c.append(eng.compare(ast.LtE(), rq, BS))                        # reads of at most one block
+        for st_ in o["stages"]:
+            for (_n, ml, _r, lim) in st_.calls:
+                # every stage of the chain is asked for at most what the caller asked for (a later stage may expand too: AES -> LZMA)
+                c.append(eng.compare(ast.GtE(), ml, 0))
+                c.append(eng.compare(ast.LtE(), ml, lim))
         w = shape_is(eng, o["norm"], [("D_s%d" % (nstages - 1), 0, total)])
         if w is None:
             w = shape_is(eng, o["norm"], [])
@@ -499,10 +508,33 @@ def replay_decompressor(maxes, block):
                 got = b""
                 tried += 1
                 scale = 1
+                seen = []
+
+                class Spy:
+                    """records what each stage of the real chain is asked for"""
+
+                    def __init__(self, inner, idx):
+                        self.inner, self.idx = inner, idx
+
+                    def decompress(self, data, max_length=-1):
+                        seen.append((self.idx, max_length, cur[0]))
+                        return self.inner.decompress(data, max_length)
+
+                    def __getattr__(self, a):
+                        return getattr(self.inner, a)
+
+                cur = [0]
+                if len(d.chain) > 1:
+                    d.chain = [Spy(x, i) for i, x in enumerate(d.chain)]
                 try:
                     for m in seq:
                         m = m * scale
+                        cur[0] = m
                         chunk = d.decompress(fp, m)
+                        bad = [t for t in seen if t[1] < 0 or t[1] > t[2]]
+                        if bad:
+                            return True, "stage %d of the chain %s was asked for max_length %d while the caller asked for %d" % (
+                                bad[0][0], filters, bad[0][1], bad[0][2])
                         if len(chunk) > m:
                             return True, "chunk of %d bytes for max_length %d (%s, block %d)" % (len(chunk), m, filters, blk)
                         got += chunk
@@ -670,7 +702,7 @@ def units(tier):
         us.append(Unit("1.aes_decompress[%d chunks]" % k, M, "aes_decompress", dict(k=k), 1800))
     for ns, reads in ([(1, 2), (2, 2), (3, 1)] if tier == "quick" else [(1, 3), (2, 3), (3, 2), (4, 2)]):
         us.append(Unit("2.compressor_loop[%d stages,%d reads]" % (ns, reads), M, "compressor_loop", dict(nstages=ns, reads=reads), 1800))
-    for k, hon, ns in ([(2, True, 1), (2, False, 1), (3, True, 1), (3, False, 1), (2, False, 2)] if tier == "quick" else
+    for k, hon, ns in ([(2, True, 1), (2, False, 1), (3, True, 1), (3, False, 1), (2, False, 2), (2, True, 2)] if tier == "quick" else
                        [(2, True, 1), (2, False, 1), (3, True, 1), (3, False, 1), (2, False, 2), (2, True, 2), (4, True, 1)]):
         us.append(Unit("3.decompressor[%d calls,%s,%d stage]" % (k, "honour" if hon else "ignore", ns), M, "decompressor_calls",
                        dict(k=k, honour=hon, nstages=ns), 1800))
